@@ -53,4 +53,4 @@ LEVEL_TEXT = ('Bounded symbolic verification of the stop logic of the real GMGPo
               'that fired, in the configured norm. Decides only the "a reported convergence is true" half of C01.')
 LEVEL_NOTE = 'first sentence of C01 (convergence with rate < 1) NOT decided; 9x8/5x4 only; cycles abstracted to arbitrary updates; exact arithmetic; sqrt uninterpreted with axioms'
 TECHNIQUE = 'symbolic execution of LLVM IR (llsym) with path forking on the convergence test + SMT (z3 QF_NRA with Ackermannised sqrt)'
-DESIGN_REF = 'DESIGN.md section 6/C01'
+DESIGN_REF = 'DESIGN.md section 0 (status as built: 0.2, 0.5, 0.6) and section 6/C01 (design)'
